@@ -105,6 +105,15 @@ class _Builder:
                for k in ("K1", "K2", "K3") if d["ol" + k]]
         for n, l, g in {"fwd": [("c", "header", 7), ("d", "query", 9)], "mirror": [("c", "query", 7)]}.get(cross, []):
             own.append(self.param(item_file, "O_%s_%s" % (n, l), pdef(n, l, d["orient"] == "oT", g), d["odepth"]))
+        if d.get("mbroken"):
+            # a definition in the shared file whose own nested reference dangles
+            flt = ({"name": "flt", "in": "query", "type": "array", "items": {"$ref": "#/Missing"}} if v2 else
+                   {"name": "flt", "in": "query", "schema": {"$ref": "#/Missing"}})
+            self.put("shared/params", "Filter", flt)
+            own.append({"$ref": self.ref(item_file, "shared/params", "Filter")})
+            if self.lay == "multi":  # the shared file has its OWN definition under the pointer text the root uses for O and Z
+                other = {"Lim": pdef("lim", "query", True, 13)}
+                self.files["shared/params"].update({"parameters": other} if v2 else {"components": {"parameters": other}})
         if own:
             m["parameters"] = own
         if d["body"] == "form":
@@ -157,6 +166,8 @@ class _Builder:
         o = {"operationId": "opO", "responses": {"200": {"description": "ok"}}}
         if d.get("oNoId"):
             del o["operationId"]
+        if d.get("mbroken"):
+            o["parameters"] = [{"$ref": comp_params + "Lim"}]
         collide = d.get("collide", False)
         lim = lambda r, g: pdef("lim", "query", r, g)
         if collide:
@@ -166,7 +177,7 @@ class _Builder:
         item = {"parameters": shared, "post": m, "get": o}
         # Z
         zparams: list = [pdef("q", "query", False, 4)]
-        if collide:
+        if collide or d.get("mbroken"):
             zparams.append({"$ref": comp_params + "Lim"})
         if d.get("qcontent"):
             zparams[0] = {"name": "q", "in": "query", "required": False,
@@ -201,10 +212,10 @@ class _Builder:
         if zpath in W_PATH:
             paths[W_PATH[zpath]] = {"post": {"operationId": "opW", "parameters": [pdef("w", "query", False, 11)],
                                              "responses": {"200": {"description": "ok"}}}}
-        if collide:
+        if collide or d.get("mbroken"):
             comp = api.setdefault("parameters", {}) if v2 else api.setdefault("components", {}).setdefault("parameters", {})
             comp["Lim"] = lim(False, 12)
-            if not (d["pathRef"] and self.lay == "multi"):
+            if collide and not (d["pathRef"] and self.lay == "multi"):
                 comp["Lim_item"] = lim(d["orient"] == "pT", 13)
         root["paths"] = paths
         if d["sec"] != "none":
@@ -559,7 +570,7 @@ def case_failures(case: dict, obs: list[dict]) -> dict[int, list[str]]:
 
 ROUTE = {"iter": "iterate", "path": "path-method", "id": "operationId", "ref": "reference"}
 BASE = {"plK1": True, "plK2": False, "olK1": True, "olK2": False, "olK3": False, "orient": "pT", "pdepth": 1, "odepth": 0,
-        "pathRef": False, "body": "two", "rec": False, "cross": "none", "zpath": "/z", "collide": False, "ver": "3.0", "qcontent": False, "secgen": True, "oNoId": False, "sec": "hdr", "bad": "none"}
+        "pathRef": False, "body": "two", "rec": False, "cross": "none", "zpath": "/z", "collide": False, "ver": "3.0", "qcontent": False, "secgen": True, "oNoId": False, "mbroken": False, "sec": "hdr", "bad": "none"}
 
 
 def _rel(a: tuple, b: tuple) -> str:
@@ -789,7 +800,7 @@ def selftest(ctx: Ctx) -> bool:
 
     _root.append(ctx.path("docs"))
     d = {"plK1": True, "plK2": False, "olK1": True, "olK2": False, "olK3": False, "orient": "pT", "pdepth": 1, "odepth": 0,
-         "pathRef": False, "body": "two", "rec": False, "cross": "none", "zpath": "/z", "collide": False, "ver": "3.0", "qcontent": False, "secgen": True, "oNoId": False,
+         "pathRef": False, "body": "two", "rec": False, "cross": "none", "zpath": "/z", "collide": False, "ver": "3.0", "qcontent": False, "secgen": True, "oNoId": False, "mbroken": False,
          "sec": "hdr", "bad": "paramref"}
     main = ensure_files(d, "yaml", "single")
     std = yaml.safe_load(open(main))
